@@ -32,6 +32,16 @@ Theorem C17_malformed_no_trace :
 Proof. intros c q st line d H. exact (proj1 (step_not_wellformed c q st line d H)). Qed.
 Print Assumptions C17_malformed_no_trace.
 
+(* all such lines at once.  [effective] (Proofs/Instances.v) walks a history and keeps the lines that change
+   the parser state together with their results; every line it drops left the state as it found it, which
+   is what [C17_no_trace] establishes for rejected lines and unfragmented sentences.  The kept lines, run
+   alone, end in the same state and get the same results: *)
+Theorem C17_removal_of_all :
+  forall c q h st,
+    run c q st (fst (effective c q st h)) = (fst (run c q st h), snd (effective c q st h)).
+Proof. exact remove_all_transparent. Qed.
+Print Assumptions C17_removal_of_all.
+
 (* Distinct parser instances never influence each other.  Two instances are two state values;
    an interleaved history names, for each call, the instance it is made on ([run2],
    Proofs/Instances.v).  Each instance ends in the state, and each of its calls gets the result,
